@@ -35,6 +35,9 @@
 //   - Dialer: a gate for dial functions.  Await posts a "Dial" op and blocks until the
 //     controller completes it (or the dial context ends, which it honours like net.Dialer).
 //
+//   - Gate: a generic hold point (Pass / WaitN / Release / Open) for wrappers around objects the
+//     harness hands to the code under test.
+//
 // Event lines (Event = map): "seq" sequence number, "ev" name, "conn" conn name, "ms" real
 // milliseconds since the recorder was created (diagnostics and generous bounds only), plus
 //
@@ -721,3 +724,103 @@ func (op *DialOp) Complete(val any, err error) bool {
 }
 
 var ErrRefused = errors.New("simnet: connection refused")
+
+// ---------------------------------------------------------------------------
+// Gate: a named rendezvous point for harness wrappers around objects handed to the code under
+// test (e.g. a DnsConn wrapper whose ReserveNewQuery must be held at entry).  Pass blocks until
+// the controller releases the arrival (or the gate is open); arrivals are numbered in order and
+// logged as Gate{gate,id} / GateRelease{gate,id}.
+
+type GateOp struct {
+	ID   int
+	g    *Gate
+	done chan struct{}
+	fin  bool
+}
+
+type Gate struct {
+	rec     *Recorder
+	name    string
+	mu      sync.Mutex
+	wake    chan struct{}
+	open    bool
+	n       int
+	pending []*GateOp
+}
+
+// NewGate returns a closed gate (arrivals are held) unless open is true.
+func NewGate(rec *Recorder, name string, open bool) *Gate {
+	return &Gate{rec: rec, name: name, open: open, wake: make(chan struct{}, 1)}
+}
+
+// Pass is called by the wrapper inside the code under test.
+func (g *Gate) Pass() {
+	g.mu.Lock()
+	if g.open {
+		g.mu.Unlock()
+		return
+	}
+	g.n++
+	op := &GateOp{ID: g.n, g: g, done: make(chan struct{})}
+	g.pending = append(g.pending, op)
+	g.rec.Log("Gate", "gate", g.name, "id", op.ID)
+	g.mu.Unlock()
+	select {
+	case g.wake <- struct{}{}:
+	default:
+	}
+	<-op.done
+}
+
+// Pending returns the held arrivals, oldest first.
+func (g *Gate) Pending() []*GateOp {
+	g.mu.Lock()
+	defer g.mu.Unlock()
+	return append([]*GateOp(nil), g.pending...)
+}
+
+// WaitN waits until at least n arrivals are held; returns whether that happened in time.
+func (g *Gate) WaitN(n int, timeout time.Duration) bool {
+	t := time.NewTimer(timeout)
+	defer t.Stop()
+	for {
+		if len(g.Pending()) >= n {
+			return true
+		}
+		select {
+		case <-g.wake:
+		case <-t.C:
+			return len(g.Pending()) >= n
+		}
+	}
+}
+
+// Release lets one held arrival continue.
+func (op *GateOp) Release() {
+	g := op.g
+	g.mu.Lock()
+	defer g.mu.Unlock()
+	if op.fin {
+		return
+	}
+	op.fin = true
+	for i, p := range g.pending {
+		if p == op {
+			g.pending = append(g.pending[:i], g.pending[i+1:]...)
+			break
+		}
+	}
+	g.rec.Log("GateRelease", "gate", g.name, "id", op.ID)
+	close(op.done)
+}
+
+// Open releases everything held (newest first) and lets later arrivals pass unlogged.
+func (g *Gate) Open() {
+	ps := g.Pending()
+	for i := len(ps) - 1; i >= 0; i-- {
+		ps[i].Release()
+	}
+	g.mu.Lock()
+	g.open = true
+	g.mu.Unlock()
+}
